@@ -44,7 +44,7 @@ fn main() {
         }
         "work" => {
             if args.len() < 7 { usage(); }
-            framework::work(prop.as_ref(), tier_of(&args[3]), args[4].parse().unwrap(), args[5].parse().unwrap(), args[6].parse().unwrap());
+            framework::work(prop.as_ref(), tier_of(&args[3]), args[4].parse().unwrap(), args[5].parse().unwrap(), args[6].parse().unwrap(), args.get(7).and_then(|s| s.parse().ok()).unwrap_or(1));
         }
         "runplan" => {
             let rep = framework::run_plan_file(prop.as_ref(), &args[3]);
